@@ -38,19 +38,66 @@ def run_variant(name, patch, reverse, props):
     finally:
         shutil.rmtree(tmp, ignore_errors=True)
 
+def record_seeded(sel):
+    """run every registered check on every kept seeded change and store what fires in its meta.json"""
+    import concurrent.futures as cf
+
+    man = json.load(open(os.path.join(VERIF, "MANIFEST.json")))
+    props = [c["property_id"] for c in man["checks"]]
+
+    def one(d):
+        tmp = tempfile.mkdtemp(prefix="vrg_")
+        try:
+            shutil.copytree("/repo/tsdate", os.path.join(tmp, "tsdate"))
+            r = subprocess.run(["patch", "-p1", "-s", "-d", tmp, "-i", os.path.join(d, "patch.diff")], capture_output=True, text=True)
+            if r.returncode:
+                return d, None
+            fired = {}
+            for p in props:
+                env = dict(os.environ, VERIF_REPO=tmp, VERIF_NO_EVIDENCE="1")
+                r = subprocess.run([os.path.join(VERIF, "check"), p], capture_output=True, text=True, env=env)
+                if r.returncode:
+                    first = [l.strip() for l in r.stdout.splitlines() if l.startswith("  ") or "ANALYSIS-ERROR" in l][:1]
+                    fired[p] = dict(exit=r.returncode, first=(first or [""])[0][:400])
+            return d, fired
+        finally:
+            shutil.rmtree(tmp, ignore_errors=True)
+
+    dirs = [d for d in sorted(glob.glob(os.path.join(VERIF, "seeded", "*"))) if os.path.exists(os.path.join(d, "meta.json")) and sel in os.path.basename(d)]
+    bad = 0
+    with cf.ThreadPoolExecutor(4) as ex:
+        for d, fired in ex.map(one, dirs):
+            mp = os.path.join(d, "meta.json")
+            m = json.load(open(mp))
+            if fired is None:
+                print(f"{os.path.basename(d):8s} PATCH-FAILED")
+                bad += 1
+                continue
+            m["detected_by"] = {p: v["first"] for p, v in fired.items() if v["exit"] == 1}
+            m["analysis_errors"] = {p: v["first"] for p, v in fired.items() if v["exit"] == 2}
+            own = m["property"] in m["detected_by"]
+            m["verdict"] = "detected by the property's own check" if own else ("detected by other checks only" if m["detected_by"] else "not detected")
+            json.dump(m, open(mp, "w"), indent=1)
+            exp = m.get("expected_undetected")
+            status = "own" if own else "other" if m["detected_by"] else ("undetected(expected)" if exp else "UNDETECTED")
+            if status == "UNDETECTED":
+                bad += 1
+            print(f"{os.path.basename(d):8s} {status:20s} {sorted(m['detected_by'])} {('ERR ' + str(sorted(m['analysis_errors']))) if m['analysis_errors'] else ''}")
+    print(f"{len(dirs)} seeded changes, {bad} undetected without a recorded reason")
+    return 1 if bad else 0
+
+
 def main():
+    if "--record" in sys.argv:
+        a = [x for x in sys.argv[1:] if x != "--record"]
+        return record_seeded(a[0] if a else "")
     sel = sys.argv[1] if len(sys.argv) > 1 else ""
     rows = []
     for fn in sorted(glob.glob(os.path.join(VERIF, "regress", "*.fixdiff"))):
         name = os.path.basename(fn)[:-8]
         if sel in name:
             rows += run_variant(name, fn, True, MAP.get(name, []))
-    for d in sorted(glob.glob(os.path.join(VERIF, "seeded", "*"))):
-        meta = os.path.join(d, "meta.json")
-        if os.path.exists(meta) and sel in os.path.basename(d):
-            m = json.load(open(meta))
-            props = m.get("checks") or [m["property"]]
-            rows += run_variant("seeded/" + os.path.basename(d), os.path.join(d, "patch.diff"), False, props)
+    # seeded changes: tools/regress.py --record
     bad = 0
     for r in rows:
         print(f"{r[0]:38s} {r[1]} {r[2]:10s} {r[3]}")
